@@ -225,7 +225,7 @@ fn claimable(in_use: usize, writers: usize) -> bool {
 //            old head.
 // frame:     other nodes: in_use changes only COOLDOWN -> UNUSED and only with no active writer;
 //            active_writers and all slots untouched.
-// @harness name=l1_node_get props=C11,C10,C13 tier=quick flavour=nostd fn=Node::get+Node::check_cooldown+Node::traverse
+// @harness name=l1_node_get props=C11,C10,C13,C02,C17,C01 tier=quick flavour=nostd fn=Node::get+Node::check_cooldown+Node::traverse
 #[cfg_attr(kani, kani::proof)]
 #[cfg_attr(kani, kani::unwind(10))]
 pub(crate) fn l1_node_get() {
